@@ -33,10 +33,13 @@ SPEC = {'id': 'C14',
              'today; true: kept). Not modelled: protocolName/protocolType pass-through, OffsetFetch/DescribeGroups/ListGroups/DeleteGroups, store errors, the '
              "ticker's real-time jitter.",
  'search_n': 1500,
- 'theorems': ['C14_join_success_all_joined', 'C14_leader_is_member', 'C14_members_only_to_leader', 'C14_sync_after_leader_sync', 'C14_sync_whole_generation', 'C14_nonvacuous'],
+ 'theorems': ['C14_join_success_all_joined', 'C14_leader_is_member', 'C14_members_only_to_leader', 'C14_sync_after_leader_sync', 'C14_sync_whole_generation', 'C14_join_reply_under_store_faults', 'C14_sync_under_store_faults', 'C14_memory_wellformed_under_store_faults', 'C14_nonvacuous'],
  'level_text': 'Machine-checked Coq theorems over all histories: a join answered NONE implies every current member has joinGeneration = generation; the leader '
                'named in every join reply (and the joiner) is a current member; a non-empty member list implies NONE and member = leader; in '
                "CompletingRebalance the leader's sync succeeds and makes the group Stable, in Stable every current member's sync of that generation succeeds "
                '(and by C12_one_map_per_generation the group stays Stable while the generation is unchanged). Correspondence + implementation-side oracle '
                "(black-box: every current member's last join reply carries the generation of a NONE reply) on generated histories."}
 SPEC['assumptions'].insert(0, "every coordinator operation holds c.mu from its first read of group state to its last store write (this is what makes the model's step relation atomic per operation, schedules = operation sequences). CHECKED by the harness on the real code: a gating store wrapper intercepts every store call the coordinator makes (Metadata, PutConsumerGroup, FetchConsumerGroup, DeleteConsumerGroup, CommitConsumerOffset) during every operation of every history and tests whether c.mu is free; if it is, the schedule's inner operations are run to completion on the same group while that store call is parked and the failure lock-released-across-store-call:<op>:<storecall> is reported with the schedule as replay (plus whatever the property oracles then observe); where the lock is held the inner operations run after the outer one, which is the order the lock enforces. Windows for every outer kind x inner kind are generated in every quick run.")
+SPEC['assumptions'] = [a for a in SPEC['assumptions'] if not a.startswith('store operations succeed')]
+SPEC['assumptions'].append("transient store failures ARE modelled (model/CoordinatorFaults.v, step relation stepf with a per-operation fault: load of the group / whole-group write / offset write fails) and injected by the harness's gating store wrapper into every operation kind (incl. the first join, leave, the leader's sync, cleanup's persist, the load after a failover); the *_under_store_faults theorems hold for arbitrary failures; claims that compare a coordinator with its successor (C15 view, C13/C12 across failover) need 'the last whole-group write succeeded' (synced), stated in the theorems. Not modelled and not injected: a failing store.Metadata in the leader's sync (collectTopicPartitions falls back to partition 0 per topic). The check needs fixes/C14-join-error-reply-no-members.patch.")
+SPEC['coq_deps'] = ['theories/corr/CoordinatorCorr.vo']
